@@ -83,7 +83,10 @@ func allFaults(nCalls int) []memstore.Fault {
 
 // genOpOfKind draws ops until one of the wanted kind comes out.
 func genOpOfKind(c *gen.Ctx, g *genState, i int, kind string) Op {
+	g.force = kind
+	defer func() { g.force = "" }()
 	for {
+		// (an idempotency-key replay may return an op of another kind)
 		op := genOp(c, g, i)
 		if op.K == kind {
 			return op
